@@ -130,6 +130,9 @@ func (fr *Frame) inlineFrame(nf *Frame, in ssa.Instruction, st *BState) Val {
 	fr.ord["call:"+nf.fn.Name()]++
 	nf.callpath = fmt.Sprintf("%s%s:%d/", fr.callpath, nf.fn.Name(), fr.ord["call:"+nf.fn.Name()])
 	nf.dryStack = nil
+	defer func() {
+		// (asserts after inlined calls are keyed like contract calls: <name>:<ordinal among inlined calls>)
+	}()
 	nf.run(st.reach)
 	if len(nf.rets) == 0 {
 		st.reach = "false"
@@ -230,6 +233,7 @@ func (fr *Frame) applyContract(spec *FuncSpec, key string, sig *types.Signature,
 					src = "precondition of " + short + " (part): " + g.Desc
 				}
 				o := e.oblige(name, "pre", st.reach, g.Term, fr.pos(in.Pos()), src, c.Tags)
+				o.Site = &SpecCtx{e: e, names: names, heap: pre, old: pre, pkg: spec.Pkg}
 				if len(partsL) > 1 {
 					o.Group = fmt.Sprintf("%s#%spre@%s:%d", e.topKey(), fr.callpath, site, i+1)
 				}
@@ -278,7 +282,66 @@ func (fr *Frame) applyContract(spec *FuncSpec, key string, sig *types.Signature,
 		e.note("trusted contract (body not verified): " + key)
 	}
 	st.heap = post
+	fr.siteAsserts(site, res, in, st)
 	return res
+}
+
+// siteAsserts: "//@ assert <callee>:<n> <expr>" clauses of the enclosing function's contract are proved and then
+// assumed right after that call returns (intermediate assertions that guide quantifier instantiation).
+func (fr *Frame) siteAsserts(site string, res Val, in ssa.Instruction, st *BState) {
+	e := fr.e
+	sp := e.P.Specs[funcKey(fr.fn)]
+	if fr.isTop && fr.spec != nil {
+		sp = fr.spec
+	}
+	if sp == nil {
+		return
+	}
+	for i, c := range sp.Asserts[site] {
+		ctx := fr.specCtx(st.heap, fr.curBlock)
+		ctx.atIdx = 1 << 30
+		for k, bi := range fr.curBlock.Instrs {
+			if bi == in {
+				ctx.atIdx = k + 1
+			}
+		}
+		// debug references for the call's own result follow the call instruction
+		for ctx.atIdx < len(fr.curBlock.Instrs) {
+			if _, ok := fr.curBlock.Instrs[ctx.atIdx].(*ssa.DebugRef); ok {
+				ctx.atIdx++
+				continue
+			}
+			if _, ok := fr.curBlock.Instrs[ctx.atIdx].(*ssa.Extract); ok {
+				ctx.atIdx++
+				continue
+			}
+			break
+		}
+		if res.K != kNone {
+			ctx.names["result"] = res
+			if res.K == kTuple {
+				for k, f := range res.Fs {
+					if k == 0 {
+						ctx.names["result"] = f
+					} else {
+						ctx.names[fmt.Sprintf("result%d", k)] = f
+					}
+				}
+			}
+		}
+		parts := ctx.evalSplitL(c.Expr)
+		var ts []string
+		for j, g := range parts {
+			ts = append(ts, g.Term)
+			if e.dry == 0 {
+				o := e.oblige(fmt.Sprintf("%s#%sassert@%s:%d/%d", e.topKey(), fr.callpath, site, i+1, j+1), "assert", st.reach, g.Term, fr.pos(in.Pos()), "assert after "+site+": "+g.Desc, c.Tags)
+				if len(parts) > 1 {
+					o.Group = fmt.Sprintf("%s#%sassert@%s:%d", e.topKey(), fr.callpath, site, i+1)
+				}
+			}
+		}
+		e.assume(st.reach, and(ts...))
+	}
 }
 
 func (fr *Frame) vname2(in ssa.Instruction) string {
